@@ -12,13 +12,23 @@
    in the least fixed point) and C11 (minimisation keeps the start class pumping).
    What remains are the two per-rule hypotheses genuine and local (for rules of the library's
    constructors both are theorems: Spec/AdapterLocal.v srule_of_local, Spec/AdapterGenuine.v
-   srule_ofN_genuine, under the per-form contract about the true tables) and the fact that each
-   extracted key has a rule with that key (Hfound: the `_find_rule` contract on the UNGROUPED
-   extracted keys; it is checked by a C11 extra check on a few fixed live searches, not on every
-   search, and the object handed to the user is built with group_equiv=True). *)
+   srule_ofN_genuine, under the per-form contract about the true tables; the pipeline theorem with
+   NO genuine/local hypothesis left for such specifications is Spec/PipelineConstructors.v
+   forest_pipeline_constructors) and Hfound, in the form rules() really guarantees (Spec/EvalDrop.v):
+   every extracted key k has a rule r in the specification whose declared children-with-shifts are
+   the key's children MINUS children that are empty classes (`drops`): rules() hands out the
+   equivalence form rule.to_equivalence_rule() of a union whose other children are empty, and leaves
+   the rule of an empty class to be added lazily.  (The first version asked for kids k = r_kids r,
+   which is false on 11.7 % of the forest searches of C01's generator - replayed; the form below holds
+   on all of them.)  Only incl (r_kids r) (kids k) is used by the proof; that the dropped children do
+   not matter for the VALUE the rule computes is the contract drop_form of Spec/EvalDrop.v
+   (forest_pipeline_total_original below: genuine and local are assumed of the ORIGINAL rules, the ones
+   whose keys were extracted, only).  The object handed to the user is built with group_equiv=True:
+   its keys R1 are related to the ungrouped ones by C02_grouping_preserves_productivity /
+   C02_object_root_pumps_decided. *)
 From Coq Require Import ZArith List Bool Lia.
 From CSS Require Import Forest.Spec Forest.Model Forest.Theorems Forest.Extractor
-  Forest.ExtractorRun Forest.ExtractorTheorems Spec.Eval.
+  Forest.ExtractorRun Forest.ExtractorTheorems Spec.Eval Spec.EvalDrop.
 Import ListNotations.
 Open Scope Z_scope.
 
@@ -37,9 +47,11 @@ Hypothesis Hanswer : pumping_answer st root = true.
 (* the extractor ran on the same keys *)
 Hypothesis Hbuckets : forall k, In k ks -> (bk_bucket k < 4)%nat.
 Hypothesis Hextract : extract fuelx root ks = Ok res.
-(* every extracted key was turned back into a rule with that key *)
+(* every extracted key was turned back into a rule whose children are the key's children minus
+   children that are empty classes (what rules() guarantees; Spec/EvalDrop.v) *)
 Hypothesis Hfound : forall k, In k res ->
-  exists r, spec (parent (bk_key k)) = Some r /\ kids (bk_key k) = r_kids terms r.
+  exists r, spec (parent (bk_key k)) = Some r /\
+            drops (empty_class T dflt) (r_kids terms r) (kids (bk_key k)).
 (* contracts *)
 Hypothesis T_neg : forall c m, m < 0 -> T c m = dflt.
 Hypothesis op_neg : forall c r, spec c = Some r -> forall p o n, n < 0 -> r_op terms r p o n = dflt.
@@ -58,9 +70,11 @@ Proof.
 Qed.
 
 Lemma keys_have_rules : forall k, In k (map bk_key res) ->
-  exists r, spec (parent k) = Some r /\ kids k = r_kids terms r.
+  exists r, spec (parent k) = Some r /\ incl (r_kids terms r) (kids k).
 Proof.
-  intros k Hk. apply in_map_iff in Hk. destruct Hk as (b & <- & Hb). apply Hfound; auto.
+  intros k Hk. apply in_map_iff in Hk. destruct Hk as (b & <- & Hb).
+  destruct (Hfound b Hb) as (r & Hr & Hd). exists r. split; [exact Hr|].
+  exact (drops_incl _ _ _ Hd).
 Qed.
 
 Theorem forest_pipeline_correct : forall n, 0 <= n ->
@@ -68,7 +82,7 @@ Theorem forest_pipeline_correct : forall n, 0 <= n ->
 Proof.
   intros n Hn.
   apply (eval_correct terms dflt spec T T_neg op_neg all_local all_genuine).
-  apply (pumps_ev terms spec (map bk_key res) keys_have_rules root root_pumps_in_extracted n Hn).
+  apply (pumps_ev_sub terms spec (map bk_key res) keys_have_rules root root_pumps_in_extracted n Hn).
 Qed.
 
 (* and the specification has no other solution at the start class *)
@@ -80,7 +94,7 @@ Theorem forest_pipeline_unique (U : nat -> Z -> terms) :
 Proof.
   intros Un Us n Hn.
   apply (unique_solution terms dflt spec T T_neg all_local all_genuine U Un Us).
-  apply (pumps_ev terms spec (map bk_key res) keys_have_rules root root_pumps_in_extracted n Hn).
+  apply (pumps_ev_sub terms spec (map bk_key res) keys_have_rules root root_pumps_in_extracted n Hn).
 Qed.
 
 End Pipeline.
@@ -108,7 +122,8 @@ Theorem forest_pipeline_total :
        parent (bk_key (nth i res (mkb dummy 0))) = parent (bk_key (nth j res (mkb dummy 0))) -> i = j) /\
     forall spec : nat -> option (srule terms),
       (forall k, In k res ->
-         exists r, spec (parent (bk_key k)) = Some r /\ kids (bk_key k) = r_kids terms r) ->
+         exists r, spec (parent (bk_key k)) = Some r /\
+                   drops (empty_class T dflt) (r_kids terms r) (kids (bk_key k))) ->
       (forall c r, spec c = Some r -> forall p o n, n < 0 -> r_op terms r p o n = dflt) ->
       (forall c r, spec c = Some r -> local terms r) ->
       (forall c r, spec c = Some r -> genuine terms T c r) ->
@@ -125,5 +140,44 @@ Proof.
     exact (forest_pipeline_correct terms dflt T spec pick (fuel_bound (add_ops ks)) fuelx root ks res
              (run_total pick (add_ops ks)) (run_total_spec pick (add_ops ks)) Hanswer Hbuckets Hres
              Hfound T_neg Hop Hloc Hgen n Hn).
+Qed.
+
+(* The same with genuine / local / default-at-negative-sizes assumed of the ORIGINAL rules only - for
+   every extracted key k the rule `orig k` with exactly the key's children - while the specification
+   holds, for k, a drop form of `orig k` (Spec/EvalDrop.v: the operator of the rule handed out is the
+   original operator fed with the table of an empty class at the dropped positions, and the dropped
+   children are empty classes).  The dropped children are thus shown irrelevant. *)
+Theorem forest_pipeline_total_original :
+  exists res, extract fuelx root ks = Ok res /\
+    forall (spec : nat -> option (srule terms)) (orig : bkey -> srule terms) (sel : bkey -> nat -> option nat),
+      (forall c r, spec c = Some r -> exists k, In k res /\ parent (bk_key k) = c) ->
+      (forall k, In k res ->
+         r_kids terms (orig k) = kids (bk_key k) /\
+         (forall p o n, n < 0 -> r_op terms (orig k) p o n = dflt) /\
+         local terms (orig k) /\ genuine terms T (parent (bk_key k)) (orig k) /\
+         exists r, spec (parent (bk_key k)) = Some r /\
+                   drops (empty_class T dflt) (r_kids terms r) (kids (bk_key k)) /\
+                   drop_form terms dflt (orig k) r (sel k) /\ dropped_empty terms dflt T (orig k) (sel k)) ->
+      forall n, 0 <= n ->
+      exists f0, forall f, (f0 <= f)%nat -> eval terms dflt spec f root n = T root n.
+Proof.
+  destruct forest_pipeline_total as (res & Hres & Hdist & Hpipe).
+  exists res. split; [exact Hres|]. intros spec orig sel Hdom Hk n Hn.
+  (* the rule the specification holds for a class is THE drop form of the original rule of the one key
+     with that parent *)
+  assert (forall c r, spec c = Some r -> exists k, In k res /\ parent (bk_key k) = c /\
+            drop_form terms dflt (orig k) r (sel k) /\ dropped_empty terms dflt T (orig k) (sel k)) as Hinv.
+  { intros c r Hs. destruct (Hdom c r Hs) as (k & Hin & Hp). exists k. split; [exact Hin|]. split; [exact Hp|].
+    destruct (Hk k Hin) as (_ & _ & _ & _ & r' & Hs' & _ & Hdf & Hde).
+    rewrite Hp in Hs'. rewrite Hs in Hs'. injection Hs' as <-. split; assumption. }
+  apply (Hpipe spec); [| | | |exact Hn].
+  - intros k Hin. destruct (Hk k Hin) as (_ & _ & _ & _ & r & Hs & Hd & _). exists r. split; assumption.
+  - intros c r Hs. destruct (Hinv c r Hs) as (k & Hin & _ & Hdf & _).
+    destruct (Hk k Hin) as (_ & Hneg & _). exact (drop_form_neg terms dflt dflt _ _ _ Hdf Hneg).
+  - intros c r Hs. destruct (Hinv c r Hs) as (k & Hin & _ & Hdf & _).
+    destruct (Hk k Hin) as (_ & _ & Hloc & _). exact (drop_form_local terms dflt _ _ _ Hdf Hloc).
+  - intros c r Hs. destruct (Hinv c r Hs) as (k & Hin & Hp & Hdf & Hde).
+    destruct (Hk k Hin) as (_ & _ & Hloc & Hgen & _). rewrite <- Hp.
+    exact (drop_form_genuine terms dflt T _ _ _ _ Hdf Hde Hloc Hgen).
 Qed.
 End PipelineTotal.
